@@ -18,12 +18,13 @@ type Ctx struct {
 	RPC []*RPCSite
 	// rpcTargets: call instruction -> RPCAPI methods it dispatches to
 	rpcTargets map[ssa.CallInstruction][]*ssa.Function
+	rpcCtx     map[ssa.CallInstruction]map[ssa.CallInstruction][]*ssa.Function
 	rpcUnres   []string
 	reachMemo  map[*ssa.Function]map[*ssa.Function]bool
 }
 
 func newCtx(p *Program) *Ctx {
-	return &Ctx{P: p, rpcTargets: map[ssa.CallInstruction][]*ssa.Function{}, reachMemo: map[*ssa.Function]map[*ssa.Function]bool{}}
+	return &Ctx{P: p, rpcTargets: map[ssa.CallInstruction][]*ssa.Function{}, rpcCtx: map[ssa.CallInstruction]map[ssa.CallInstruction][]*ssa.Function{}, reachMemo: map[*ssa.Function]map[*ssa.Function]bool{}}
 }
 
 func (c *Ctx) prepare() {
@@ -485,6 +486,7 @@ type RetLeaf struct {
 	Ret   *ssa.Return
 	Val   ssa.Value
 	Block *ssa.BasicBlock // block whose guards apply to this leaf (phi edge source when known)
+	Pos   token.Pos
 }
 
 // returnLeaves enumerates the values that can reach result slot idx of f,
@@ -502,7 +504,31 @@ func returnLeaves(f *ssa.Function, idx int) []RetLeaf {
 		}
 		expandLeaves(ret.Results[idx], b, ret, map[ssa.Value]bool{}, &out)
 	}
-	return out
+	// de-duplicate (defer-spilled results are seen from the normal and the
+	// recover return)
+	type k struct {
+		v ssa.Value
+		b *ssa.BasicBlock
+	}
+	seen := map[k]bool{}
+	var ded []RetLeaf
+	for _, l := range out {
+		kk := k{l.Val, l.Block}
+		if seen[kk] {
+			continue
+		}
+		seen[kk] = true
+		if !l.Pos.IsValid() {
+			l.Pos = l.Ret.Pos()
+		}
+		if !l.Pos.IsValid() && len(l.Block.Instrs) > 0 {
+			for i := len(l.Block.Instrs) - 1; i >= 0 && !l.Pos.IsValid(); i-- {
+				l.Pos = l.Block.Instrs[i].Pos()
+			}
+		}
+		ded = append(ded, l)
+	}
+	return ded
 }
 
 func expandLeaves(v ssa.Value, blk *ssa.BasicBlock, ret *ssa.Return, seen map[ssa.Value]bool, out *[]RetLeaf) {
@@ -527,7 +553,13 @@ func expandLeaves(v ssa.Value, blk *ssa.BasicBlock, ret *ssa.Return, seen map[ss
 				if len(sts) > 0 && !seen[x] {
 					seen[x] = true
 					for _, s := range sts {
+						n := len(*out)
 						expandLeaves(s.Val, s.Block(), ret, seen, out)
+						for i := n; i < len(*out); i++ {
+							if !(*out)[i].Pos.IsValid() {
+								(*out)[i].Pos = s.Pos()
+							}
+						}
 					}
 					if !al.Heap || true {
 						// zero value is also possible if no store dominates
